@@ -67,7 +67,7 @@ pub fn feed_bounds(recs: &[(u64, U)], now: u64, interval: u64) -> Option<(U, U, 
     Some((lo, hi, longer))
 }
 
-fn vamm_records(ctx: &Ctx, v: usize) -> Vec<PriceRec> {
+pub fn vamm_records(ctx: &Ctx, v: usize) -> Vec<PriceRec> {
     let mut recs = ctx.model.prices[v].clone();
     let (a, b) = (&ctx.pre.vamms[v], &ctx.post.vamms[v]);
     if a.q != b.q || a.b != b.b {
